@@ -39,6 +39,10 @@ class Ctx:
     def ast(self):
         if self._ast is None:
             self._ast = Ast(self.facts_dir, factsmod.CRATES)
+            try:
+                self._ast.known = {c: set(v) for c, v in self.ref("fn_names.json").items()}
+            except (OSError, ValueError):
+                self._ast.known = None
         return self._ast
 
     def tables(self, which):
